@@ -742,6 +742,17 @@ def b_max(interp, st, fr, args, kw):
     return r
 
 
+@model('builtins.slice')
+def b_slice(interp, st, fr, args, kw):
+    """slice(stop) / slice(start, stop[, step]): the same key object the executor builds for a[start:stop:step]"""
+    if kw or not 1 <= len(args) <= 3:
+        raise Unsupported('slice() with these arguments')
+    vals = [None if a is None else interp._idx(a, st) for a in args]
+    if len(vals) == 1:
+        return slice(None, vals[0], None)
+    return slice(*vals)
+
+
 @model('builtins.getattr')
 def b_getattr(interp, st, fr, args, kw):
     """getattr(obj, name[, default]) for a constant name: the attribute, or the default where Python would raise
